@@ -1524,3 +1524,113 @@ def comment_space(tier):
                                 continue
                         out.append((k, s, d, tr, pp))
     return out
+
+
+# ---------------------------------------------- C04 + C05: inherited virtual overrides
+
+VIRT_INH = ("pub", "priv", "prot", "multi", "virt", "chain", "chain_privmid", "chain_redecl")
+VIRT_CONST = ("plain", "const", "mismatch")      # mismatch: base const, derived not -> no override
+
+
+class VirtAtom(Atom5):
+    """A base <p>B declares `virtual int <p>_f(int)` in section base_sec; a derived <p>D
+    declares the same signature (an override, unless const-ness differs) in section
+    der_sec.  interrogate may *elide* the re-declaration of an inherited virtual; the
+    objective requirement is reachability: a method that the derived class declares with
+    the requested visibility must be recorded either for the derived class or for a base
+    class that the database lists (transitively) among the derived class's bases.
+
+      inh: pub | priv | prot | multi (second base) | virt | chain (B <- M <- D, M does not
+           redeclare) | chain_privmid (M : private B) | chain_redecl (M redeclares under
+           `public:`)
+    """
+
+    def __init__(self, prefix, base_sec, der_sec, inh, constness="plain", pure=False):
+        self.p, self.base_sec, self.der_sec, self.inh = prefix, base_sec, der_sec, inh
+        self.constness, self.pure = constness, pure
+        self.key = "virt:%s:%s:%s:%s%s" % (SEC_CODE[base_sec], SEC_CODE[der_sec], inh, constness,
+                                          ":pure" if pure else "")
+        self.B, self.M, self.D, self.B2 = prefix + "B", prefix + "M", prefix + "D", prefix + "X"
+        self.f = prefix + "_f"
+
+    def render(self):
+        p = self.p
+        bc = " const" if self.constness in ("const", "mismatch") else ""
+        dc = " const" if self.constness == "const" else ""
+        L = ["class %s {" % self.B, "%s:" % SECTION_KW[self.base_sec],
+             "  virtual int %s(int a)%s%s;" % (self.f, bc, " = 0" if self.pure else ""),
+             "__published:", "  int %s_bm();" % p, "};"]
+        base_of_d = self.B
+        if self.inh.startswith("chain"):
+            L += ["class %s : %s %s {" % (self.M, "private" if self.inh == "chain_privmid" else "public",
+                                          self.B)]
+            if self.inh == "chain_redecl":
+                L += ["public:", "  int %s(int a)%s;" % (self.f, bc)]
+            L += ["__published:", "  int %s_mm();" % p, "};"]
+            base_of_d = self.M
+        if self.inh == "multi":
+            L += ["class %s {" % self.B2, "__published:", "  int %s_xm();" % p, "};"]
+        spec = {"pub": "public " + base_of_d, "priv": "private " + base_of_d,
+                "prot": "protected " + base_of_d,
+                "multi": "public %s, public %s" % (base_of_d, self.B2),
+                "virt": "virtual public " + base_of_d}.get(self.inh, "public " + base_of_d)
+        L += ["class %s : %s {" % (self.D, spec), "%s:" % SECTION_KW[self.der_sec],
+              "  int %s(int a)%s;" % (self.f, dc), "__published:", "  int %s_dm();" % p, "};"]
+        return "\n".join(L) + "\n"
+
+    def expect(self, promiscuous):
+        ok = lambda s: s == "published" or (promiscuous and s == "public")
+        return {"base": ok(self.base_sec), "derived": ok(self.der_sec),
+                "mid": promiscuous and self.inh == "chain_redecl"}
+
+    # C04 interface -----------------------------------------------------------
+    def model(self, promiscuous, cmd, local):
+        e = self.expect(promiscuous)
+        file_ok = local and cmd != "ignorefile"
+        v = {}
+        pa = lambda c: "present" if c else "absent"
+        v["@fn/%s::%s" % (self.B, self.f)] = pa(file_ok and e["base"])
+        if not (file_ok and e["derived"]):
+            v["@fn/%s::%s" % (self.D, self.f)] = "absent"
+        else:
+            v["@reach/%s/%s" % (self.D, self.f)] = "present"
+        if self.inh == "chain_redecl" and not (file_ok and e["mid"]):
+            v["@fn/%s::%s" % (self.M, self.f)] = "absent"
+        v[self.f] = pa(file_ok and (e["base"] or e["derived"] or e["mid"]))
+        v["%s_dm" % self.p] = pa(file_ok)
+        v["%s_bm" % self.p] = pa(file_ok)
+        self.why = {}
+        return v
+
+    # C05 interface -----------------------------------------------------------
+    def truth(self):
+        e = self.expect(False)
+        bconst = self.constness in ("const", "mismatch")
+        dconst = self.constness == "const"
+        par = [Param(("int",), "a")]
+        t = {"functions": [], "classes": [], "reach": [], "absent_fn": [], "optional_functions": []}
+        if e["base"]:
+            t["functions"].append(Func(self.f, par, ("int",), const=bconst, virtual=True, cls=self.B))
+        else:
+            t["absent_fn"].append("%s::%s" % (self.B, self.f))
+        dfn = Func(self.f, par, ("int",), const=dconst, virtual=(self.constness != "mismatch"),
+                   cls=self.D)
+        if e["derived"]:
+            t["reach"].append((self.D, self.f))
+            t["optional_functions"].append(dfn)     # described truthfully if it is recorded
+            if self.constness == "mismatch":
+                t["functions"].append(dfn)          # not an override: always its own method
+        else:
+            t["absent_fn"].append("%s::%s" % (self.D, self.f))
+        return t
+
+
+def virt_space(tier):
+    out = []
+    for inh in VIRT_INH:
+        for bs in SECTIONS:
+            for ds in ("published", "public"):
+                for cn in VIRT_CONST:
+                    for pure in (False, True):
+                        out.append((bs, ds, inh, cn, pure))
+    return out
